@@ -16,8 +16,9 @@ NAMES4 = ["a", "b", "", "x;y"]
 
 
 class Workload:
-    def __init__(self, schema, scripts, names, mode="mem", flags=None, tag="g", origin=""):
+    def __init__(self, schema, scripts, names, mode="mem", flags=None, tag="g", origin="", also=()):
         self.schema = schema
+        self.also = list(also)   # further (module, cfg) trace specifications the same traces must satisfy
         self.scripts = scripts
         self.names = names
         self.mode = mode
@@ -69,6 +70,15 @@ def run_and_validate(binary, workloads, wd, module="TraceLibrary", cfg=None, wat
 
     def val(sh):
         sh["val"] = vlib.validate_trace(module, cfg, sh["trace"], wd, sh["base"], max_rejections=max_rejections)
+        for (m2, c2) in sh["w"].also:
+            v2 = vlib.validate_trace(m2, c2, sh["trace"], wd, sh["base"] + "." + m2, max_rejections=max_rejections)
+            for rej in v2["rejected"]:
+                rej["module"], rej["cfg"] = m2, c2
+                rej["reason"] = "%s: %s" % (m2, rej.get("reason"))
+            sh["val"]["rejected"] += v2["rejected"]
+            sh["val"]["tlc_states"] += v2["tlc_states"]
+            sh["val"].setdefault("also_accepted", {})
+            sh["val"]["also_accepted"][m2] = v2["accepted"]
         return sh
 
     with ThreadPoolExecutor(jobs) as ex:
